@@ -6,6 +6,7 @@ CONSTANTS
   SchedOps <- MCSchedOps
   SolOps <- MCSolOps
   StartMonths <- MCStart
+  IntOps <- MCIntOps
 VIEW View
 INVARIANTS AlwaysNever Nth Spaced NoneSkipped
 PROPERTY EventsGrow
